@@ -252,3 +252,47 @@ def check_c09(truth, opts, r):
     if extra:
         return False, "structs emitted that the host does not fill: %s" % extra
     return True, ""
+
+
+def check_c03(truth_vis, truth_pc, r):
+    """C03, behaviourally: the visibility bits of every layout entry the compiled module hands to the device (and the
+    stages of the push-constant range when the push constant is used) against the generator's own ground truth"""
+    dl = r["obs"]["device_log"]
+    ents = {}
+    for lay in dl.get("layouts", []):
+        for e in lay["get_bind_group_layout"]["entries"]:
+            ents[(lay["group"], e["binding"])] = e["visibility"]
+    for g, b, ss in truth_vis:
+        if ents.get((g, b)) != stage_bits(ss):
+            return False, "binding (%d, %d): visibility bits %s handed to the device, stages using it: %s" % (g, b, ents.get((g, b)), ss)
+    if truth_pc:
+        rs = (dl.get("pipeline_layout") or {}).get("push_constant_ranges") or []
+        if len(rs) != 1 or rs[0]["stages"] != stage_bits(truth_pc):
+            return False, "push constant range %s, stages using it: %s" % (rs, truth_pc)
+    return True, ""
+
+
+def check_c11(truth_pairs, r):
+    """C11 on success, behaviourally: the (group, binding) slots the compiled module hands to the device are exactly the
+    declared ones, each once, in its own group; groups are 0..n-1 in pipeline-layout order"""
+    dl = r["obs"]["device_log"]
+    got = []
+    for lay in dl.get("layouts", []):
+        for e in lay["get_bind_group_layout"]["entries"]:
+            got.append((lay["group"], e["binding"]))
+    if sorted(got) != sorted((g, b) for g, b in truth_pairs):
+        return False, "slots handed to the device %s, declared %s" % (sorted(got), sorted(truth_pairs))
+    n = len({g for g, _ in truth_pairs})
+    labels = [x["label"] for x in (dl.get("pipeline_layout") or {}).get("bind_group_layouts", [])]
+    if labels != ["LayoutDescriptor%d" % g for g in range(n)]:
+        return False, "pipeline layout lists %s for %d groups" % (labels, n)
+    return True, ""
+
+
+def check_c08(truth, r):
+    """C08, behaviourally: the set of struct items of the compiled module (rustc would reject a duplicate)"""
+    got = sorted((r["obs"].get("structs") or {}).keys())
+    want = sorted(t["name"] for t in truth)
+    if got != want:
+        return False, "structs in the compiled module %s, structs a host has to fill %s" % (got, want)
+    return True, ""
